@@ -126,8 +126,8 @@ descend into (what is left in `dirs`), in order -/
 def step (fs : FS κ) (p : Path) (c : κ) (st : St κ) : Except Err (List (Path × κ) × St κ) :=
   let es := fs.entries c
   if fs.inJail c = false then
-    -- `continue`: `dirs` is left untouched, os.walk descends into every listed directory
-    .ok ((dirPairs es).map (fun kd => (p ++ [kd.2], kd.1)), st)
+    -- `dirs[:] = []; continue`: nothing below a directory outside the jail is looked at
+    .ok ([], st)
   else
     let dset := mkDict (dirPairs es)
     let diags := addDiags fs.hasToml dset st.diags
